@@ -103,6 +103,11 @@ func (g *lockGate) MkdirAll(name string, perm os.FileMode) error {
 	}
 	g.sh.mu.Lock()
 	defer g.sh.mu.Unlock()
+	if g.sh.auto[g.id] && g.sh.releasing[g.id] {
+		g.sh.events = append(g.sh.events, fmt.Sprintf("ue%d", g.id))
+		g.sh.releasing[g.id] = false
+		g.sh.auto[g.id] = false
+	}
 	_, before := g.Fs.Stat(name)
 	err := g.Fs.MkdirAll(name, perm)
 	if err == nil && before != nil {
@@ -267,9 +272,7 @@ func lockMutexMain(args []string) {
 	judge := func(w *lockWorld, caseTxt string, maxHolders int32, override bool, acquisitions int) {
 		line := w.eventsLine()
 		rep.Eval(caseTxt+" | "+line, acquisitions >= 2)
-		if maxHolders > 1 {
-			rep.Fail(hx.Failure{Kind: "impl-violates-property", Key: classifyOverlap(w, override), Case: caseTxt, Expected: "at most one holder at any instant", Observed: fmt.Sprintf("%d simultaneous holders; events: %s", maxHolders, line)})
-		}
+		modelForeign := -1
 		if drv != nil {
 			a, err := drv.Ask1(line)
 			if err != nil {
@@ -278,20 +281,26 @@ func lockMutexMain(args []string) {
 			}
 			if !strings.HasPrefix(a, "ok ") {
 				rep.Fail(hx.Failure{Kind: "model-impl-divergence", Key: "lock-events-not-accepted-by-the-model", Case: caseTxt, Expected: "every observed event is enabled in Model.Lock", Observed: a + " in " + line})
-				return
+			} else {
+				rep.Hist("model-accepts-the-history")
+				var mh int
+				fmt.Sscanf(a, "ok holds=%d foreign=%d", &mh, &modelForeign)
+				if modelForeign > 0 {
+					rep.Hist("histories-with-a-foreign-removal")
+				}
+				if len(rep.Samples) < 6 {
+					rep.Sample(map[string]string{"case": caseTxt, "events": line, "model": a})
+				}
 			}
-			rep.Hist("model-accepts-the-history")
-			var mh, fr int
-			fmt.Sscanf(a, "ok holds=%d foreign=%d", &mh, &fr)
-			if fr == 0 && maxHolders > 1 {
-				rep.Fail(hx.Failure{Kind: "model-impl-divergence", Key: "two-holders-without-foreign-removal", Case: caseTxt, Expected: "theorem C01_mutex_partial", Observed: a + " but the harness saw two holders; " + line})
+		}
+		if maxHolders > 1 {
+			key := classifyOverlap(w, override)
+			if modelForeign == 0 {
+				// two holders although nobody removed anybody else's lock directory: not one of the two recorded
+				// windows (theorem C01_mutex_partial says this cannot happen with an exclusive Mkdir)
+				key = "two-holders:without-any-foreign-removal"
 			}
-			if fr > 0 {
-				rep.Hist("histories-with-a-foreign-removal")
-			}
-			if len(rep.Samples) < 6 {
-				rep.Sample(map[string]string{"case": caseTxt, "events": line, "model": a})
-			}
+			rep.Fail(hx.Failure{Kind: "impl-violates-property", Key: key, Case: caseTxt, Expected: "at most one holder at any instant", Observed: fmt.Sprintf("%d simultaneous holders; events: %s", maxHolders, line)})
 		}
 	}
 	for _, backend := range []string{"mem", "os"} {
@@ -416,6 +425,75 @@ func lockMutexMain(args []string) {
 				n++
 			}
 			judge(w, "lockcase w2 "+backend, atomic.LoadInt32(&maxH), true, n)
+			for _, i := range []int{1, 2} {
+				w.sh.begin(i)
+				_ = w.locks[i].Unlock(ctx)
+				w.sh.end(i)
+			}
+		}()
+	}
+	// ---------------- W4: a contender that judged the lock stale is overtaken before it acts ----------------
+	for _, backend := range []string{"mem", "os"} {
+		func() {
+			w := newLockWorld(backend, []int{9, 1, 2}, true)
+			defer w.cleanup()
+			if w.locks[9].TryLock(ctx) != nil {
+				return
+			}
+			time.Sleep(70 * time.Millisecond) // let the holder write its heartbeat file once
+			_ = w.locks[9].MakeStale(ctx)
+			time.Sleep(120 * time.Millisecond)
+			w.sh.die(9)
+			heartbeat := filepath.Join(w.sh.lockPath, "L.lock")
+			blocked := make(chan struct{})
+			resume := make(chan struct{})
+			var once sync.Once
+			var sawHeartbeat int32
+			w.gates[2].before = func(op, name string) {
+				if (op == "Stat" || op == "Lstat") && filepath.Clean(name) == heartbeat && atomic.LoadInt32(&sawHeartbeat) == 0 {
+					atomic.StoreInt32(&sawHeartbeat, 1) // the first look at the heartbeat: the lock will be judged stale
+					return
+				}
+				if atomic.LoadInt32(&sawHeartbeat) == 1 {
+					first := false
+					once.Do(func() { first = true; close(blocked) })
+					if first {
+						<-resume
+					}
+				}
+			}
+			var holders, maxH int32
+			acq := func(i int) bool {
+				if w.locks[i].TryLock(ctx) == nil {
+					h := atomic.AddInt32(&holders, 1)
+					if h > atomic.LoadInt32(&maxH) {
+						atomic.StoreInt32(&maxH, h)
+					}
+					return true
+				}
+				return false
+			}
+			done := make(chan bool, 1)
+			go func() { done <- acq(2) }()
+			select {
+			case <-blocked:
+			case <-time.After(3 * time.Second):
+			}
+			a1 := acq(1)
+			close(resume)
+			a2 := false
+			select {
+			case a2 = <-done:
+			case <-time.After(5 * time.Second):
+			}
+			n := 1
+			if a1 {
+				n++
+			}
+			if a2 {
+				n++
+			}
+			judge(w, "lockcase w4-overtaken-after-judging-stale "+backend, atomic.LoadInt32(&maxH), true, n)
 			for _, i := range []int{1, 2} {
 				w.sh.begin(i)
 				_ = w.locks[i].Unlock(ctx)
